@@ -41,6 +41,7 @@ def plan(tier, seed):
     for i in range(10 if tier == "quick" else 120):
         shards.append({"item": {"kind": "gen", "seed": seed * 100003 + 20000 + i, "opts": {"names": "keywords", "services": True}},
                        "seed": seed + i, "k": 2 if tier == "quick" else 4})
+    shards.append({"item": {"kind": "extra", "name": "deprecated_rpc_only"}, "seed": seed, "k": 2})
     for d in ("service", "example_service", "googletypes_request", "googletypes_response", "import_service_input_message",
               "service_separate_packages", "googletypes_service_returns_empty", "service_uppercase"):
         if d in corpus.inputs_dirs():
@@ -234,7 +235,8 @@ async def drive(b: Build, shard, res: Result):
         seen_server_md: Dict[int, dict] = {}
 
         async def on_recv(event):
-            seen_server_md[PLAN.call_id] = {"metadata": dict(event.metadata), "deadline": event.deadline is not None, "method": event.method_name}
+            seen_server_md[PLAN.call_id] = {"metadata": dict(event.metadata), "deadline": event.deadline is not None, "method": event.method_name,
+                                            "pairs": [(k, v) for k, v in event.metadata.items()]}
 
         cf = ChannelFor([impl_all])
         async with cf as channel:
@@ -293,6 +295,26 @@ async def drive(b: Build, shard, res: Result):
                     for st, sd, sm, ct, cd, cm in combos:
                         await precedence_call(b, bpk, g, rng, stub_cls, channel, m, (st, sd, sm, ct, cd, cm), res, dict(w0, method=m["proto"]),
                                               next(call_ids), seen_kwargs, seen_server_md, name)
+            # metadata given as pairs with a repeated key (grpclib accepts a mapping or pairs): every value reaches the server,
+            # from the stub-level default as well as from the call
+            if methods:
+                m = methods[shard["seed"] % len(methods)]
+                for level in ("stub", "call"):
+                    pairs = [("x-vf-tag", "alpha"), ("x-vf-tag", "beta"), ("x-vf-one", level)]
+                    cid = next(call_ids)
+                    PLAN.call_id, PLAN.log = cid, []
+                    PLAN.n_responses, PLAN.error_status, PLAN.error_early = 1, None, False
+                    res.counters["calls"] += 1
+                    res.counters["multi_valued_metadata_calls"] += 1
+                    stub = stub_cls(channel, metadata=pairs) if level == "stub" else stub_cls(channel)
+                    await client_call(b, bpk, g, rng, stub, m, {"n_req": 1, "n_resp": 1, "src": "list"}, {} if level == "stub" else {"metadata": pairs})
+                    md = seen_server_md.get(cid)
+                    if md is not None:
+                        got = [v for k, v in md.get("pairs", []) if k == "x-vf-tag"]
+                        if got != ["alpha", "beta"]:
+                            res.violation("precedence", ["metadata", level + "-level-pairs", "values-of-a-repeated-key-lost"],
+                                          f"{name}: {m['route']}: {level}-level metadata {pairs} reached the server as x-vf-tag={got}",
+                                          dict(w0, method=m["proto"], scenario="multi-valued-metadata"))
         # UNIMPLEMENTED: a server where nothing is overridden
         async with ChannelFor([base()]) as channel:
             stub = stub_cls(channel)
